@@ -130,6 +130,67 @@ def existence(ctx, fam):
                 "configs": [p.get("ep_config") for p in fam.progs][:6]})
 
 
+PLAIN_TEMPLATE = """use sylvia::cw_std::{{Binary, Deps, DepsMut, Empty, Env, MessageInfo, Reply, Response, StdResult}};
+use sylvia::ctx::{{ExecCtx, InstantiateCtx, MigrateCtx, QueryCtx, SudoCtx}};
+pub fn ov_instantiate(_d: DepsMut, _e: Env, _i: MessageInfo, _m: Empty) -> StdResult<Response> {{ Ok(Response::new()) }}
+pub fn ov_exec(_d: DepsMut, _e: Env, _i: MessageInfo, _m: Empty) -> StdResult<Response> {{ Ok(Response::new()) }}
+pub fn ov_query(_d: Deps, _e: Env, _m: Empty) -> StdResult<Binary> {{ Ok(Binary::default()) }}
+pub fn ov_sudo(_d: DepsMut, _e: Env, _m: Empty) -> StdResult<Response> {{ Ok(Response::new()) }}
+pub fn ov_migrate(_d: DepsMut, _e: Env, _m: Empty) -> StdResult<Response> {{ Ok(Response::new()) }}
+pub struct Contract;
+#[sylvia::entry_points]
+#[sylvia::contract]
+{overrides}
+impl Contract {{
+    pub fn new() -> Self {{ Contract }}
+    #[sv::msg(instantiate)]
+    fn instantiate(&self, _ctx: InstantiateCtx) -> StdResult<Response> {{ Ok(Response::new()) }}
+    #[sv::msg(exec)]
+    fn poke(&self, _ctx: ExecCtx) -> StdResult<Response> {{ Ok(Response::new()) }}
+    #[sv::msg(query)]
+    fn peek(&self, _ctx: QueryCtx) -> StdResult<u32> {{ Ok(1) }}
+    #[sv::msg(sudo)]
+    fn tick(&self, _ctx: SudoCtx) -> StdResult<Response> {{ Ok(Response::new()) }}
+    #[sv::msg(migrate)]
+    fn migrate(&self, _ctx: MigrateCtx) -> StdResult<Response> {{ Ok(Response::new()) }}
+}}
+pub fn probe() {{
+{probes}}}
+"""
+
+
+def existence_without_mt(ctx):
+    """The same existence probes in a crate that depends on the framework with its *default* features only (no `mt`: the
+    configuration every wasm build uses); the corpus workspace always has `mt` on because the monitors need it."""
+    kinds = ["instantiate", "exec", "query", "sudo", "migrate"]
+    import itertools
+    subsets = [()] + [(k,) for k in kinds] + [tuple(kinds)] + [tuple(c) for c in itertools.combinations(kinds, 2)][::3]
+    mods, meta = {}, {}
+    for i, ov in enumerate(subsets):
+        attrs = "\n".join(f"#[sv::override_entry_point({k}=ov_{k}(Empty))]" for k in ov)
+        present = [k for k in kinds if k not in ov]
+        mods[f"nm{i:02d}_ok"] = PLAIN_TEMPLATE.format(overrides=attrs, probes="".join(f"    let _ = entry_points::{EP_OF[k]};\n" for k in present))
+        meta[f"nm{i:02d}_ok"] = (ov, "accept", present)
+        for k in ov:
+            mods[f"nm{i:02d}_no_{k}"] = PLAIN_TEMPLATE.format(overrides=attrs, probes=f"    let _ = entry_points::{EP_OF[k]};\n")
+            meta[f"nm{i:02d}_no_{k}"] = (ov, "reject", k)
+    res = rustc_engine.verdicts(ctx, "c06nomt", mods, features=[], with_svmon=False)
+    for m, diags in res.items():
+        ov, exp, what = meta[m]
+        ctx.ev()
+        txt = " ".join(d["message"] or "" for d in diags)
+        d = {"overrides": list(ov), "module": m, "source": mods[m], "diagnostics": diags[:3]}
+        if exp == "accept" and diags:
+            ctx.violate("nomt:missing-entry-point", f"without `mt`, overrides {list(ov)}: an entry point of {what} cannot be named: {diags[0]['message'][:120]}", d)
+        elif exp == "reject" and not diags:
+            ctx.violate(f"nomt:unexpected-entry-point:{what}", f"without `mt`, overrides {list(ov)}: the default `{what}` entry point is generated although that kind is overridden", d)
+        elif exp == "reject" and "cannot find" not in txt and "is private" not in txt:
+            ctx.violate("nomt:probe-other-error", f"without `mt`: probe for `{what}` failed differently: {diags[0]['message'][:120]}", d)
+        else:
+            ctx.nontrivial(["nomt", list(ov), exp, str(what)])
+            ctx.count("existence_probes_without_mt")
+
+
 def structure(ctx):
     """In-process: the set of emitted entry-point functions for every override subset, and the text of the
     functions that are not overridden compared with the expansion without any override."""
@@ -211,6 +272,7 @@ def run(ctx):
     gfam.each_bin(lambda b, progs, r: [behaviour(ctx, r, p, 3) for p in progs])
     ctx.cov["generic_programs"] = len(gfam.progs)
     existence(ctx, fam)
+    existence_without_mt(ctx)
     structure(ctx)
     ctx.cov["configurations"] = len(fam.progs)
     ctx.cov["override_subsets_seen"] = sorted({",".join(p["ep_config"]["overrides"]) for p in fam.progs})
